@@ -97,6 +97,7 @@ func main() {
 	free := fs.Bool("free", false, "degraded mode: free-running goroutines, no simulator control")
 	wantSigs := fs.Bool("sigs", false, "include every run signature in the result")
 	budgetMs := fs.Int64("budget-ms", 0, "stop after this much wall time (0 = none)")
+	clock := fs.Bool("clock", false, "the library reads the (simulated) clock: inject clock jumps")
 	progPath := fs.String("progress", "", "progress file (one line per started call / run) for post-mortem of a crashed process")
 	fs.StringVar(&outPath, "out", "", "result file")
 	fs.Parse(os.Args[2:])
@@ -133,6 +134,7 @@ func main() {
 		readJSON(*corpusPath, &c)
 		readJSON(*expPath, &e)
 		g := newWgen(&c, &e, *maxStep)
+		g.clock = *clock
 		var recs []proto.RunRec
 		for i := *from; i < *from+*runs; i++ {
 			recs = append(recs, g.run(*seed, *proc, i))
@@ -143,7 +145,7 @@ func main() {
 		var e proto.Expected
 		readJSON(*corpusPath, &c)
 		readJSON(*expPath, &e)
-		runSim(&c, &e, *seed, *proc, *runs, *build, *maxStep, *free, *wantSigs, *budgetMs)
+		runSim(&c, &e, *seed, *proc, *runs, *build, *maxStep, *free, *wantSigs, *budgetMs, *clock)
 	case "replay":
 		var rec proto.Record
 		readJSON(*recPath, &rec)
@@ -253,9 +255,10 @@ func runOracle(c *proto.Corpus, order, ids string, seed uint64, free bool) {
 
 func fold(h, x uint64) uint64 { return (h ^ x) * 0x100000001b3 }
 
-func runSim(c *proto.Corpus, e *proto.Expected, seed uint64, proc, runs int, build string, maxStep int64, free, wantSigs bool, budgetMs int64) {
+func runSim(c *proto.Corpus, e *proto.Expected, seed uint64, proc, runs int, build string, maxStep int64, free, wantSigs bool, budgetMs int64, clock bool) {
 	t0 := time.Now()
 	g := newWgen(c, e, maxStep)
+	g.clock = clock
 	if len(g.fams) == 0 {
 		die("no usable calls")
 	}
@@ -301,6 +304,7 @@ func runSim(c *proto.Corpus, e *proto.Expected, seed uint64, proc, runs int, bui
 		// fault kinds, counted only when they actually fired
 		res.Faults["preempt"] += int(o.sim.Switches)
 		res.Faults["gc"] += int(o.sim.GCs)
+		res.Faults["clock_jump"] += int(o.sim.ClockJumps)
 		res.Faults["caller_panic"] += o.stats.panics
 		res.Faults["scribble_arg"] += o.stats.scribA
 		res.Faults["scribble_result"] += o.stats.scribR
@@ -390,7 +394,7 @@ func toProtoEvents(ev []simrt.Event, max int) []proto.Event {
 		if max >= 0 && i >= max {
 			break
 		}
-		out = append(out, proto.Event{Kind: e.Kind, Task: e.Task, Next: e.Next, Op: e.Op, OpStep: e.OpStep, Site: e.Site, Step: e.Step})
+		out = append(out, proto.Event{Kind: e.Kind, Task: e.Task, Next: e.Next, Op: e.Op, OpStep: e.OpStep, Site: e.Site, Step: e.Step, Arg: e.Arg})
 	}
 	return out
 }
